@@ -319,19 +319,11 @@ mut("C16-image-lookup-own-normalisation", "markdown_it/rules_inline/image.py",
 mut("C16-later-parse-lower-line-overrides", REF,
     '    if label not in state.env["references"]:\n',
     '    if label not in state.env["references"] or state.env["references"][label]["map"][0] > startLine:\n')
-mut2("C16-env-falsy-treated-as-omitted", [
-    (MAIN, "        env = {} if env is None else env\n        if not isinstance(env, MutableMapping):\n            raise TypeError(f\"Input data should be a MutableMapping, not {type(env)}\")",
-     "        env = env or {}\n        if not isinstance(env, MutableMapping):\n            raise TypeError(f\"Input data should be a MutableMapping, not {type(env)}\")", 1)])
 mut("C16-dup-recorded-only-first-time", REF,
     """    else:
         state.env.setdefault("duplicate_refs", []).append(""",
     """    elif not any(d["label"] == label for d in state.env.get("duplicate_refs", [])):
         state.env.setdefault("duplicate_refs", []).append(""")
-mut2("C12-statecore-tokens-default-shared", [
-    ("markdown_it/rules_core/state_core.py", "class StateCore(StateBase):\n",
-     "_NO_TOKENS: list[Token] = []\n\n\nclass StateCore(StateBase):\n", 1),
-    ("markdown_it/rules_core/state_core.py", "        self.tokens: list[Token] = tokens or []\n",
-     "        self.tokens: list[Token] = tokens or _NO_TOKENS\n", 1)])
 
 
 def main():
